@@ -12,9 +12,71 @@ def run(rep, tier, seed):
         "the parser is abstract on byte strings: parse_ok / status code / DTPROFUP are uninterpreted; _request_profile returns arbitrary bytes or raises",
     ]
     rep.assumptions += [
-        "NOT DECIDED (no contract within reach): a crash between open(...,'wb') truncating the file and write completing; interleavings of concurrent request_profile calls (ofxget _queue_scans). The per-call contract assumes atomic, sequential calls.",
-        "sequential histories: the per-call contract (failing calls never open the cache for writing; success returns the cached profile unchanged or a complete newer one) makes 'cache is absent or one complete accepted profile at least as new as any it held' an invariant, by induction over the history",
+        "NOT DECIDED (no contract within reach): a crash between open(...,'wb') truncating the file and write completing; interleavings of the write steps (truncate / write) of concurrent request_profile calls (ofxget _queue_scans). The main per-call contract assumes atomic, sequential calls.",
+        "concurrency, the part decided: a rely/guarantee variant of the per-call contract lets every read of the cache file return unconstrained content (another writer may have truncated or replaced the file between any two steps) and proves that a successful call still returns, and writes, only bytes that this very call has parsed as one whole profile",
+        "sequential histories: the induction step is machine-checked (z3) over a transcription of the per-call contract's clauses (history_lemmas in props/c15.py; the clause names it relies on are checked to exist in the contract): invariant preserved, cache never goes back, a failing call changes nothing, a successful call returns the profile then held. The base case (no cache) and the induction principle over finite histories are not formalised.",
     ]
     run_contracts(rep, "contracts.client", tier, seed)
+    history_lemmas(rep)
     run_contracts(rep, "contracts.client_history", tier, seed)
     replay_known_findings(rep)
+
+
+# the clauses of the per-call contract (contracts/client.py, C15_0) the step lemmas rest on
+RELIES_ON = ["up-to-date: cached profile returned, cache untouched",
+             "newer: response cached whole and returned, never older than the one held",
+             "invariant-preserved"]
+
+
+def history_lemmas(rep):
+    """Induction step for sequential histories, over a transcription of the per-call contract (non-dry-run calls).
+    State: (present, content).  A call either raises or returns r; it may have opened the file for writing (w) and then
+    wrote cw.  wellformed / dt / code are the contract's uninterpreted observers of a byte string."""
+    import time, z3
+    from contracts import client as K
+    c = K.CONTRACTS[K.C15_0]
+    names = [e[0] for e in c.ensures]
+    for n in RELIES_ON:
+        if n not in names:
+            rep.engine_error(f"C15 history lemma: the per-call contract no longer has the clause {n!r} it was transcribed from")
+            return
+    if not any(r[0] is Exception and "fs-open-for-write')) == 0" in r[1] for r in c.raises):
+        rep.engine_error("C15 history lemma: the raises clause 'a failing call never opens the cache for writing' is gone")
+        return
+    V = z3.DeclareSort("Bytes")
+    wf = z3.Function("wellformed", V, z3.BoolSort()); dt = z3.Function("dt", V, z3.IntSort()); code = z3.Function("code", V, z3.IntSort())
+    p0, raised, w = z3.Bools("present0 raised opened_for_write")
+    c0, r, cw, resp = z3.Consts("content0 returned written RESPONSE", V)
+    contract = z3.And(
+        z3.Implies(raised, z3.Not(w)),                                                            # raises clause
+        z3.Implies(z3.And(z3.Not(raised), code(resp) == 1), z3.And(p0, r == c0, z3.Not(w))),         # up-to-date
+        z3.Implies(z3.And(z3.Not(raised), code(resp) != 1),
+                   z3.And(code(resp) == 0, r == resp, w, cw == resp, z3.Implies(p0, dt(c0) <= dt(resp)))),   # newer
+        z3.Implies(z3.And(z3.Not(raised), code(resp) != 1), wf(resp)))                             # invariant-preserved
+    p1 = z3.Or(p0, w)
+    c1 = z3.If(w, cw, c0)
+    inv0 = z3.Implies(p0, wf(c0))
+    lemmas = [
+        ("invariant-step: the cache stays absent or one whole profile", z3.Implies(p1, wf(c1))),
+        ("monotone-step: a cache once present stays present and never goes back to an older profile", z3.Implies(p0, z3.And(p1, dt(c1) >= dt(c0)))),
+        ("failing-call-changes-nothing", z3.Implies(raised, z3.And(p1 == p0, c1 == c0))),
+        ("successful-call-returns-the-profile-then-held", z3.Implies(z3.Not(raised), z3.And(p1, r == c1, wf(r)))),
+    ]
+    for name, claim in lemmas:
+        t0 = time.time()
+        sol = z3.Solver(); sol.set("timeout", 20000)
+        sol.add(inv0, contract, z3.Not(claim))
+        res = sol.check()
+        full = f"C15/lemma:history/{name}"
+        if res == z3.unsat:
+            rep.ok(full, "z3", time.time() - t0, "lemma", "lemma:request_profile-history")
+        elif res == z3.sat:
+            rep.fail(full, "z3", str(sol.model())[:400], time.time() - t0, "lemma", "lemma:request_profile-history")
+            rep.violation(full, {"lemma": name, "counter_model": str(sol.model()), "note": "induction step over the per-call contract's clauses (no code involved): the contract no longer carries the history property"}, no_input=True)
+        else:
+            rep.downgraded.append({"function": "lemma:request_profile-history", "reason": ["solver undecided"], "downgraded": "proof->undecided (solver budget)"})
+    # vacuity: the hypotheses are satisfiable with a returning and with a raising call
+    for what, extra in (("returning", z3.Not(raised)), ("raising", raised)):
+        sol = z3.Solver(); sol.add(inv0, contract, extra)
+        if sol.check() != z3.sat:
+            rep.engine_error(f"C15 history lemma: hypotheses unsatisfiable for a {what} call (vacuous)")
